@@ -176,3 +176,19 @@ func H_C05_core_keys() {
 		vfReach("stored")
 	}
 }
+
+func H_C05_core_eonpublickey() {
+	msg := &p2pmsg.EonPublicKey{InstanceId: vfU64("instance"), PublicKey: vfBytes("publickey", 3), ActivationBlock: vfU64("activation"),
+		KeyperConfigIndex: vfU64("cfgindex"), Eon: vfU64("eon"), Signature: vfBytes("signature", 3)}
+	h := NewEonPublicKeyHandler(vfCfg{instance: vfU64("own-instance")}, nil)
+	vfAssert(msg.Validate() == nil, "envelope-validation-total")
+	_ = msg.LogInfo()
+	res, _ := h.ValidateMessage(context.Background(), msg)
+	if res != pubsub.ValidationAccept {
+		vfReach("rejected")
+		return
+	}
+	vfReach("accepted")
+	out, err := h.HandleMessage(context.Background(), msg)
+	vfAssert(err == nil && len(out) == 0, "eon-public-key-handler-emits-nothing")
+}
